@@ -5,16 +5,17 @@ from pyvc.contract import chain_hooks
 from props._generic import run_property, replay_with_driver
 
 LEVEL = "other"
-KEYS = ["_fva_step", "_reaction_deletion", "_get_growth"]
+KEYS = ["_fva_step", "_reaction_deletion", "_gene_deletion", "_get_growth"]
 
 
 def run(rep):
-    run_property(rep, KEYS, hooks=chain_hooks(C5.HOOKS, C6.HOOKS, C6.HOOKS_GG), explanation=(
+    run_property(rep, KEYS, hooks=chain_hooks(C5.HOOKS, C6.HOOKS_G, C6.HOOKS_GG), explanation=(
         "Contracts cannot speak about schedules; they remove the need to: what is proved is that each task is a function of (worker "
         "state at task entry, item) and hands the worker back in the state it found it. _fva_step: the LP is solved with exactly the "
         "requested reaction's +forward -reverse added, the returned pair is (requested id, solver value), and every objective "
         "coefficient is as at entry on return; _reaction_deletion: growth/status are read with exactly the listed reactions at (0,0) "
-        "and all other bounds as at entry, the function's own context is closed again (its undo history replayed); _get_growth never "
+        "and all other bounds as at entry, the function's own context is closed again (its undo history replayed); _gene_deletion "
+        "likewise with the gene-level effect of C07; _get_growth never "
         "reports a value for a non-optimal solve (NaN), so no stale solver value can leak from a previous task (the defect found here "
         "by the bounded tier, repaired in /repo). By induction over a worker's task sequence every task then sees the initial state; "
         "results are keyed by id. The Pool itself, OS scheduling, chunking and completion order are outside any sequential contract "
